@@ -18,13 +18,16 @@ func main() {
 		vlib.Group{Name: "cross-consistency", Gen: genCross},
 		vlib.Group{Name: "dense-solve", Gen: genSolveFunc},
 		vlib.Group{Name: "structured-solve", Gen: genStructured},
+		vlib.Group{Name: "solve-same-object", Gen: genSolveSame},
 		vlib.Group{Name: "inverse", Gen: genInverse},
 		vlib.Group{Name: "exp", Gen: genExp},
 		vlib.Group{Name: "pow", Gen: genPow},
 		vlib.Group{Name: "exp-sweep", Gen: genExpSweep},
 		vlib.Group{Name: "pow-sweep", Gen: genPowSweep},
 		vlib.Group{Name: "powpsd", Gen: genPowPSD},
+		vlib.Group{Name: "extract-dst", Gen: genExtractDst},
 		vlib.Group{Name: "reuse", Gen: genReuse},
+		vlib.Group{Name: "failed-refactorize", Gen: genFailedRefactorize},
 		vlib.Group{Name: "update-contracts", Gen: genUpdateMisc},
 		vlib.Group{Name: "lu-histories", Gen: genLUHist},
 		// the Cholesky histories are by far the largest group: last, so that an internal
